@@ -54,14 +54,14 @@ private:
 
   void push_stack(uint8_t value)
   {
-    ram[get_sp()] = value;
+    ram[get_sp() & ram_mask] = value;
     dec_sp();
   }
 
   uint8_t pop_stack()
   {
     inc_sp();
-    return ram[get_sp()];
+    return ram[get_sp() & ram_mask];
   }
 
   void push_stack16(int value)
